@@ -61,7 +61,7 @@ func emit(e Ev) {
 	traceW.Write(b)
 	traceW.WriteByte('\n')
 	nEvents++
-	if rs, ok := e["rs"].(bool); ok && rs {
+	if rs, ok := e["rs"].(int); ok && rs >= 1 {
 		nSegments++
 	}
 	if op, ok := e["op"].(string); ok {
@@ -297,18 +297,20 @@ func ints(xs []int) []int {
 //   - values of type `mask` are written as "_" (state identity of maps ignores stored values)
 
 type serializer struct {
-	buf  []byte
-	ids  map[uintptr]int
-	mask reflect.Type
+	buf   []byte
+	ids   map[uintptr]int
+	mask  reflect.Type
+	spare bool // also write the elements between len and cap (purity fingerprints)
+	nocap bool // do not write slice capacities (state identity of pointer structures)
 }
 
-func deepString(x any, mask reflect.Type) (s string) {
+func deepString(x any, mask reflect.Type, spare, nocap bool) (s string) {
 	defer func() {
 		if r := recover(); r != nil {
 			s = "!reflect:" + fmt.Sprint(r)
 		}
 	}()
-	z := &serializer{ids: map[uintptr]int{}, mask: mask}
+	z := &serializer{ids: map[uintptr]int{}, mask: mask, spare: spare, nocap: nocap}
 	z.walk(reflect.ValueOf(x), 0)
 	return string(z.buf)
 }
@@ -376,10 +378,15 @@ func (z *serializer) walk(v reflect.Value, depth int) {
 		}
 		z.w("[")
 		z.buf = strconv.AppendInt(z.buf, int64(v.Len()), 10)
-		z.w("/")
-		z.buf = strconv.AppendInt(z.buf, int64(v.Cap()), 10)
+		if !z.nocap {
+			z.w("/")
+			z.buf = strconv.AppendInt(z.buf, int64(v.Cap()), 10)
+		}
 		z.w(":")
-		full := v.Slice(0, v.Cap())
+		full := v
+		if z.spare {
+			full = v.Slice(0, v.Cap())
+		}
 		for i := 0; i < full.Len(); i++ {
 			if i > 0 {
 				z.w(",")
@@ -405,9 +412,9 @@ func (z *serializer) walk(v reflect.Value, depth int) {
 		var ents []kv
 		it := v.MapRange()
 		for it.Next() {
-			zk := &serializer{ids: z.ids, mask: nil}
+			zk := &serializer{ids: z.ids, mask: nil, spare: z.spare, nocap: z.nocap}
 			zk.walk(it.Key(), depth+1)
-			zv := &serializer{ids: z.ids, mask: z.mask}
+			zv := &serializer{ids: z.ids, mask: z.mask, spare: z.spare, nocap: z.nocap}
 			zv.walk(it.Value(), depth+1)
 			ents = append(ents, kv{string(zk.buf), string(zv.buf)})
 		}
